@@ -77,6 +77,7 @@ struct StaticRegion { const unsigned char* p; size_t n; };
 int rt_static_regions(StaticRegion* out, int max);   // writable, non-RELRO PT_LOAD ranges of libclipsim.so
 uint64_t rt_static_digest();
 size_t rt_static_bytes();
+size_t rt_static_bytes_all();   // static storage + heap blocks the library allocated before main() + preserved arena
 // snapshot/compare helpers: returns first differing offset (relative to lib base) or -1
 void rt_static_snapshot();
 int64_t rt_static_diff();
